@@ -81,6 +81,7 @@ def check(ctx, rep):
     rep.rule('R15.j', 'every ResponseExpectation::decode reads the body of the response it was given (no body substituted first)', floor=2)
     rep.rule('R15.i', 'the body set on the response object is the shell response\'s body field itself, whole', floor=1)
     rep.rule('R15.e', 'only the shell\'s headers are written on the shell-input path', floor=2)
+    rep.rule('R15.l', 'a repeated header is read by its last value (or as a whole list), never through Deref / index to the first', floor=1)
     cfgs = ['default'] + (['allfeat'] if ctx.has('allfeat') else [])
     for cfg in cfgs:
         http = ctx.crate(cfg, 'crux_http')
@@ -121,6 +122,7 @@ def check(ctx, rep):
         check_passthrough(rep, http, cfg)
         check_decoders(rep, http, cfg, cg)
         check_header_writes(rep, http, cfg)
+        check_header_value_choice(rep, http, cfg)
         check_charset_consulted(rep, http, cfg)
         check_body_whole(rep, http, cfg)
         check_expectations_read_the_response(rep, http, cfg)
@@ -307,6 +309,29 @@ def check_decoders(rep, http, cfg, cg):
                         % (f.where(bb), c, why), site=key + '@' + cfg)
         else:
             rep.ok('R15.d', key + '@' + cfg, 'every Result-returning call propagates its failure')
+
+
+def check_header_value_choice(rep, http, cfg):
+    """R15.l: where crux_http looks at ONE value of a header that may be repeated (Content-Type for the charset, Location), it takes the
+    last one — the convention of http_types and of ResponseAsync — or consumes the whole list; `HeaderValues` derefs to its FIRST value,
+    so `.as_str()` straight on the list, an index or `get(0)` picks another value than the sibling API does (seeded:
+    Response::content_type without `.last()`: with two Content-Type headers the string expectation decodes with the wrong charset)"""
+    n, firsts = 0, []
+    for f in http.built:
+        if f.j.get('exp') or '::testing' in f.npath or '::tests' in f.npath:
+            continue
+        for bb, t in f.calls():
+            a0 = (t['args'][0].get('t') or '') if t.get('args') else ''
+            if not re.match(r"^(&(mut )?('\w+ )?)*[\w:]*header_values::HeaderValues$", a0):
+                continue
+            n += 1
+            what = last_seg(norm(t.get('callee') or '?'))
+            if what in ('deref', 'deref_mut', 'index', 'index_mut', 'get', 'get_mut', 'first', 'as_ref', 'borrow'):
+                firsts.append('%s at %s' % (what, f.where(bb)))
+    rep.expect('R15.l', n >= 2 and not firsts, 'header-values|last-or-whole', '%d uses of HeaderValues: last / iter / whole-list only' % n,
+               'crux_http reads a possibly repeated header through %s: HeaderValues derefs / indexes to its FIRST value, while http_types and the '
+               'async response use the last — the two APIs then classify or decode the same response differently' % firsts,
+               site='header-values|last-or-whole@' + cfg)
 
 
 def check_header_writes(rep, http, cfg):
